@@ -8,6 +8,7 @@ package main
 import (
 	"errors"
 	"fmt"
+	"os"
 	"sort"
 	"strings"
 	"time"
@@ -69,8 +70,9 @@ var c10ErrNames = map[int64]string{1: "IllegalEndEscape", 2: "UnrecognizedEscape
 	46: "MalformedReference", 47: "UndefinedReference", 48: "MalformedSlashP", 49: "IncompleteSlashP", 50: "UnknownSlashP", 51: "BadClassInCharRange",
 	52: "ShorthandClassInCharRange", 53: "UnterminatedBracket", 54: "SubtractionMustBeLast", 55: "ReversedCharRange", 56: "InternalError"}
 
-// error kinds the model can produce on its own fragment (41, 42 need ECMAScript group names; 56 is unreachable)
-var c10ErrGated = []int64{1, 2, 3, 4, 5, 6, 7, 8, 9, 10, 11, 30, 31, 32, 33, 34, 35, 36, 37, 38, 39, 40, 43, 44, 45, 46, 47, 48, 49, 50, 51, 52, 53, 54, 55}
+// error kinds the model can produce on its own fragment (41, 42 need ECMAScript group names; 56 and 37 are unreachable:
+// popGroup tests p.unit == nil right after addGroup has set it)
+var c10ErrGated = []int64{1, 2, 3, 4, 5, 6, 7, 8, 9, 10, 11, 30, 31, 32, 33, 34, 35, 36, 38, 39, 40, 43, 44, 45, 46, 47, 48, 49, 50, 51, 52, 53, 54, 55}
 
 var c10NodeNames = map[int]string{3: "Oneloop", 4: "Notoneloop", 5: "Setloop", 6: "Onelazy", 7: "Notonelazy", 8: "Setlazy", 9: "One", 10: "Notone", 11: "Set",
 	12: "Multi", 13: "Ref", 14: "Bol", 15: "Eol", 16: "Boundary", 17: "Nonboundary", 18: "Beginning", 19: "Start", 20: "EndZ", 21: "End", 22: "Nothing", 23: "Empty",
@@ -275,11 +277,40 @@ func c10Domain(p []rune) []rune {
 		add(r)
 		add(r + 1)
 	}
-	for i := 0; i < len(out); i++ {
+	return c10Close(out, seen)
+}
+
+func c10Close(out []rune, seen map[rune]bool) []rune {
+	add := func(r rune) {
+		if r < 0 || r > unicode.MaxRune || seen[r] {
+			return
+		}
+		seen[r] = true
+		out = append(out, r)
+	}
+	for i := 0; i < len(out) && len(out) < 6000; i++ {
 		add(unicode.SimpleFold(out[i]))
 		add(unicode.ToLower(out[i]))
 	}
 	return out
+}
+
+// the members of the ECMAScript / RE2 shorthand classes \w \d \s (folded one by one under IgnoreCase)
+func c10ShorthandFill(dom []rune) []rune {
+	seen := map[rune]bool{}
+	for _, r := range dom {
+		seen[r] = true
+	}
+	out := dom
+	for _, p := range append([][2]rune{{'0', '9'}, {'A', 'Z'}, {'_', '_'}, {'a', 'z'}}, c16EcmaSpace...) {
+		for r := p[0]; r <= p[1]; r++ {
+			if !seen[r] {
+				seen[r] = true
+				out = append(out, r)
+			}
+		}
+	}
+	return c10Close(out, seen)
 }
 
 // the rune rows for ranges of an IgnoreCase class: every rune between two pattern runes that are at most 300 apart
@@ -329,6 +360,9 @@ func c10ModelIn(pr []rune, o syntax.RegexOptions, mco bool, full bool) []int64 {
 	dom := c10Domain(pr)
 	if full || (c10MayIgnoreCase(pr, o) && strings.ContainsRune(string(pr), '[')) {
 		dom = c10RangeFill(pr, dom)
+	}
+	if c10MayIgnoreCase(pr, o) && o&(syntax.ECMAScript|syntax.RE2) != 0 && strings.ContainsRune(string(pr), '\\') {
+		dom = c10ShorthandFill(dom)
 	}
 	in := []int64{int64(o), b2i(mco), int64(len(dom))}
 	for _, r := range dom {
@@ -460,6 +494,8 @@ var c10CorpusDialect = []string{
 
 var c10InsertFrags = []string{"(", ")", "[", "]", "{", "}", "|", "*", "+", "?", "\\", "^", "$", ".", "(?", "(?:", "(?<n>", "(?=", "(?<=", "(?!", "(?>", "(?#", "(?i)", "(?x:", "\\1", "\\k<n>", "\\d", "\\p{L}", "{2}", "{2,}", "{1,3}?", "[^", "-[", "#", " ", "a", "-"}
 
+var c10TimeIn, c10TimeReal time.Duration
+
 type c10Case struct {
 	pat  string
 	o    syntax.RegexOptions
@@ -470,12 +506,14 @@ type c10Case struct {
 func legC10Parse(c *Ctx) {
 	c.Rule("model parse (coq/Model/Parser.v: countCaptures, scanRegex with scanGroupOpen / scanCharSet / scanBackslash / quantifiers, and the mandatory reducers of tree.go) vs syntax.Parse with the optional rewrite families gated off (mask 31): PR_Err <=> parse error of the same code, PR_Tree => exact tree (T, Options, Ch, M, N, Str, CharSet fields, children) and capture table, PR_Outside counted. Inputs: a fixed corpus of one pattern per construct / error kind, patterns printed from random ASTs (full generator syntax), every harvested test pattern, byte-level mutants of all of these (truncation, deletion, insertion of metacharacters and group openers, byte replacement), each under option sets drawn from 20 combinations of {IgnoreCase, Multiline, ExplicitCapture, Singleline, IgnorePatternWhitespace, RightToLeft, ECMAScript, RE2, Unicode} and MaintainCaptureOrder; non-trivial = compared (inside the fragment) and not a plain literal (distinct by pattern, options)")
 	var cases []c10Case
-	for _, p := range c10Corpus {
-		for i, o := range c10OptSets {
-			if i == 1 || i == 2 {
-				continue
-			}
-			cases = append(cases, c10Case{p, o, false, "corpus"})
+	for k, p := range c10Corpus {
+		// every pattern under the six basic option sets, three of the other eleven in rotation, and MaintainCaptureOrder
+		for _, i := range []int{0, 3, 4, 5, 6, 10} {
+			cases = append(cases, c10Case{p, c10OptSets[i], false, "corpus"})
+		}
+		rest := []int{7, 8, 9, 11, 12, 13, 14, 15, 16, 17, 18, 19}
+		for j := 0; j < 3; j++ {
+			cases = append(cases, c10Case{p, c10OptSets[rest[(k*3+j)%len(rest)]], false, "corpus"})
 		}
 		cases = append(cases, c10Case{p, 0, true, "corpus"})
 	}
@@ -522,6 +560,7 @@ func legC10Parse(c *Ctx) {
 		cases = append(cases, c10Case{m, Pick(c.Rng, c10OptSets), c.Rng.Chance(10), "mutant"})
 	}
 
+	t0 := time.Now()
 	ins := make([][]int64, len(cases))
 	legs := make([]int, len(cases))
 	impl := make([][]int64, len(cases))
@@ -529,9 +568,13 @@ func legC10Parse(c *Ctx) {
 	typesOf := make([]map[int]bool, len(cases))
 	for i, cs := range cases {
 		pr := []rune(cs.pat)
+		ta := time.Now()
 		ins[i] = c10ModelIn(pr, cs.o, cs.mco, false)
 		legs[i] = 1001
+		tb := time.Now()
 		r := c10ParseReal(cs.pat, cs.o, cs.mco)
+		c10TimeIn += tb.Sub(ta)
+		c10TimeReal += time.Since(tb)
 		real[i] = r
 		typesOf[i] = map[int]bool{}
 		switch {
@@ -545,10 +588,14 @@ func legC10Parse(c *Ctx) {
 			impl[i] = c10EncTree(r.tree, typesOf[i])
 		}
 	}
+	t1 := time.Now()
 	outs, err := runModel(c.ModelBin, legs, ins)
 	if err != nil {
 		c.Add(&Case{Desc: "c10-parse: model execution failed: " + err.Error(), Direct: "model execution failed"})
 		return
+	}
+	if os.Getenv("VERIF_C10_DEBUG") != "" {
+		fmt.Fprintf(os.Stderr, "TIMING prepare+real %.1fs (oracle tables %.1fs, real parser %.1fs) model pre-run %.1fs\n", t1.Sub(t0).Seconds(), c10TimeIn.Seconds(), c10TimeReal.Seconds(), time.Since(t1).Seconds())
 	}
 	// second chance with the wide rune table for the cases whose oracle tables were too small
 	var redo []int
@@ -598,11 +645,17 @@ func legC10Parse(c *Ctx) {
 		mo := outs[i]
 		if len(mo) == 1 && mo[0] == -998 {
 			incomplete++
+			if os.Getenv("VERIF_C10_DEBUG") != "" {
+				fmt.Fprintln(os.Stderr, "INCOMPLETE", desc)
+			}
 			c.Add(&Case{Desc: desc, Class: "oracle-incomplete"})
 			continue
 		}
 		if len(mo) == 2 && mo[0] == 0 && mo[1] == 2 {
 			outside++
+			if os.Getenv("VERIF_C10_DEBUG") != "" {
+				fmt.Fprintln(os.Stderr, "OUTSIDE", desc)
+			}
 			c.Add(&Case{Desc: desc, Class: "outside-" + cs.kind})
 			continue
 		}
